@@ -16,6 +16,12 @@
  *   rh <streamhex>                             read_header (the whole loop: extension records, decode_header, sparse maps)
  *   rhmax <streamhex>                          monitor: the largest single allocation made inside the read_header calls
  *                                              of `rh` on this stream (ASan's malloc hook) — answers `max <bytes>`
+ *   ms <streamhex> <want,want,...>             the content of the first member through the real tar iterator's member
+ *                                              stream over a memory istream (4096-byte window): request want[i mod n]
+ *                                              bytes, check that the range handed out is addressable as a whole
+ *                                              (__asan_region_is_poisoned: it must lie inside the buffer it is served
+ *                                              from — `ms outside-buffer …` otherwise), read all of it, consume it.
+ *                                              Answers the sizes handed out (run-length coded), their sum, the hash.
  *   gl <B> <flags> <content>...                istream_get_line until end of input, on the real buffered file
  *                                              istream (sqfs_istream_open_file) over a temporary file holding the
  *                                              content; content tokens: h<hex> literal bytes, r<count>x<hh> a run.
@@ -33,6 +39,21 @@
 #include <inttypes.h>
 #include <sys/mman.h>
 #include <unistd.h>
+#include <sys/stat.h>
+#include "tar/tar.h"
+#include "sqfs/dir_entry.h"
+#include "sqfs/error.h"
+#if defined(__SANITIZE_ADDRESS__)
+#define C07_HAVE_ASAN 1
+#elif defined(__has_feature)
+#if __has_feature(address_sanitizer)
+#define C07_HAVE_ASAN 1
+#endif
+#endif
+#ifdef C07_HAVE_ASAN
+#include <sanitizer/asan_interface.h>
+#endif
+#define MS_CAP 70000
 
 static int errcode(int ret) { return ret < 0 ? -ret : ret; }
 
@@ -378,6 +399,68 @@ int main(void)
 				off = (size_t)len - rest + (size_t)skip;
 			}
 			printf("max %zu\n", hook_max);
+			free(st);
+		} else if (!strcmp(op, "ms") && n == 2) {
+			unsigned char *st; long len = hex_decode_tok(a[0], &st, 0);
+			size_t wants[16], nw = 0; char *ws = NULL, *w; int bad = 0, ret;
+			sqfs_istream_t *fp, *ms = NULL; sqfs_dir_iterator_t *it; sqfs_dir_entry_t *ent = NULL;
+			if (len < 0) { puts("bad-op"); continue; }
+			for (w = strtok_r(a[1], ",", &ws); w != NULL; w = strtok_r(NULL, ",", &ws)) {
+				char *e = NULL; unsigned long v = strtoul(w, &e, 10);
+				if (e == w || *e || v == 0 || nw == 16) { bad = 1; break; }
+				wants[nw++] = v;
+			}
+			if (bad || nw == 0) { puts("bad-op"); free(st); continue; }
+			fp = mem_stream(st, (size_t)len);
+			cap_begin();
+			it = tar_open_stream(fp, NULL);
+			sqfs_drop(fp);
+			if (it == NULL) abort();
+			ret = it->next(it, &ent);
+			if (ret != 0) {
+				(void)cap_end(); puts("ms hdr-fail");
+			} else if (!S_ISREG(ent->mode) || (ent->flags & SQFS_DIR_ENTRY_FLAG_HARD_LINK)) {
+				(void)cap_end(); puts("ms not-regular");
+			} else if (it->open_file_ro(it, &ms) != 0) {
+				(void)cap_end(); puts("ms open-failed");
+			} else {
+				sqfs_u64 total = 0, h = 1469598103934665603ULL, size = ent->size;
+				size_t calls = 0, last = 0, rep = 0, i; const char *end = "cap"; int first = 1, oob = 0;
+				char *obuf = NULL; size_t olen = 0; FILE *o = open_memstream(&obuf, &olen);
+				if (o == NULL) abort();
+				while (calls < MS_CAP) {
+					const sqfs_u8 *p = NULL; size_t sz = 0, want = wants[calls % nw];
+					int r = ms->get_buffered_data(ms, &p, &sz, want);
+					if (r > 0) { end = "eof"; break; }
+					if (r < 0) { end = (r == SQFS_ERROR_CORRUPTED) ? "fail corrupted" : "fail other"; break; }
+					if (sz == 0) { end = "stuck"; break; }
+#ifdef C07_HAVE_ASAN
+					{ char *badp = __asan_region_is_poisoned((void *)p, sz);
+					  if (badp != NULL) {
+						(void)cap_end();
+						printf("ms outside-buffer call=%zu want=%zu size=%zu addressable=%zu\n", calls, want, sz, (size_t)(badp - (char *)p));
+						oob = 1; break;
+					  } }
+#endif
+					for (i = 0; i < sz; ++i) h = (h ^ p[i]) * 1099511628211ULL;
+					total += sz;
+					if (rep > 0 && sz == last) ++rep;
+					else { if (rep > 0) { fprintf(o, "%s%zux%zu", first ? "" : ",", last, rep); first = 0; } last = sz; rep = 1; }
+					++calls;
+					ms->advance_buffer(ms, sz);
+				}
+				if (rep > 0) fprintf(o, "%s%zux%zu", first ? "" : ",", last, rep);
+				fclose(o);
+				if (!oob) {
+					(void)cap_end();
+					printf("ms size=%" PRIu64 " calls=%zu sizes=%s total=%" PRIu64 " h=%016" PRIx64 " end=%s\n",
+					       (uint64_t)size, calls, olen ? obuf : "-", (uint64_t)total, (uint64_t)h, end);
+				}
+				free(obuf);
+				sqfs_drop(ms);
+			}
+			free(ent);
+			sqfs_drop(it);
 			free(st);
 		} else if (!strcmp(op, "gl") && n >= 2) {
 			/* the reading loop of fstree_from_file_stream / xattr_open_map_file / sort file: get a line, use it,
